@@ -47,6 +47,8 @@ type lazyFn struct {
 	// src is the variable holding the value obtained from the map, found the second result of sync.Map.Load
 	src, found types.Object
 	inflight   *types.TypeName
+	// result is the first named result, if any
+	result types.Object
 }
 
 func (l *lazyFn) isSyncMap(call *ast.CallExpr, name string) bool {
@@ -74,7 +76,7 @@ func (l *lazyFn) resolve(e ast.Expr) ast.Expr {
 func (l *lazyFn) isFresh(e ast.Expr) bool {
 	switch x := l.resolve(e).(type) {
 	case *ast.CallExpr:
-		if b, ok := core.ObjOf(l.inf, x.Fun).(*types.Builtin); ok && b.Name() == "new" && len(x.Args) == 1 {
+		if b, ok := core.ObjOf(l.inf, x.Fun).(*types.Builtin); ok && core.NameOf(b) == "new" && len(x.Args) == 1 {
 			nn := namedOf(l.inf.Types[x.Args[0]].Type)
 			return nn != nil && nn.Obj() == l.inflight
 		}
@@ -118,7 +120,7 @@ func (l *lazyFn) vField(e ast.Expr) (types.Object, bool) {
 		return nil, false
 	}
 	fv, ok := core.ObjOf(l.inf, sel).(*types.Var)
-	if !ok || !fv.IsField() || fv.Name() != "v" {
+	if !ok || !fv.IsField() || core.NameOf(fv) != "v" {
 		return nil, false
 	}
 	if n := namedOf(l.inf.Types[sel.X].Type); n == nil || n.Obj() != l.inflight {
@@ -172,6 +174,18 @@ func newLazyFn(c *core.Ctx, inf *types.Info, fd *ast.FuncDecl, inflight *types.T
 			params = append(params, o)
 			if _, ok := o.Type().Underlying().(*types.Signature); ok {
 				l.fParam = o
+			}
+		}
+	}
+	if fd.Type.Results != nil {
+		for _, fl := range fd.Type.Results.List {
+			for _, n := range fl.Names {
+				if o := inf.Defs[n]; o != nil {
+					l.nDefs[o] += 2 // starts as the zero value: never a single definition
+					if l.result == nil {
+						l.result = o
+					}
+				}
 			}
 		}
 	}
@@ -518,14 +532,64 @@ func (l *lazyFn) reader(rel string) {
 		return true
 	})
 	rawBad, rawN, valueBad := "", 0, ""
+	// a result variable assigned on several paths (a named result, or a local returned at the end) is followed along
+	// the path: what it holds is classified where it is assigned
+	resVar := l.result
+	if resVar == nil {
+		for _, r := range core.ReturnsIn(l.fd.Body) {
+			if len(r.Results) > 0 {
+				if id, ok := core.Unparen(r.Results[0]).(*ast.Ident); ok {
+					if o := core.ObjOf(l.inf, id); o != nil && o != l.src && l.nDefs[o] > 1 && resVar == nil {
+						resVar = o
+					}
+				}
+			}
+		}
+	}
+	const (
+		hUnset = iota
+		hRawOK
+		hRawBad
+		hV
+		hPayload
+		hOther
+	)
+	classify := func(state int, e ast.Expr) int {
+		res := l.resolve(e)
+		switch {
+		case core.ObjOf(l.inf, res) == l.src && l.src != nil:
+			if state&bNotPH == 0 {
+				return hRawBad
+			}
+			return hRawOK
+		case core.IsNil(l.inf, res):
+			return hUnset
+		}
+		if _, isV := l.vField(res); isV {
+			return hV
+		}
+		if l.payload(res) != nil && state&bLoadedF != 0 {
+			return hPayload
+		}
+		return hOther
+	}
 	core.NewFlow(l.c.M, l.inf, l.fd.Body).Run(&core.Automaton{
 		Node: func(state int, n ast.Node) int {
 			// a new lookup or assertion invalidates what was known
 			if as, ok := n.(*ast.AssignStmt); ok {
-				for _, lhs := range as.Lhs {
+				for i, lhs := range as.Lhs {
 					o := core.ObjOf(l.inf, lhs)
 					if o != nil && (o == l.src || okVars[o]) {
 						state &^= bNotPH
+					}
+					if o != nil && o == resVar {
+						if _, isId := core.Unparen(lhs).(*ast.Ident); isId {
+							h := hOther
+							if len(as.Lhs) == len(as.Rhs) {
+								h = classify(state, as.Rhs[i])
+							}
+							state = state&7 | h<<3
+						}
 					}
 				}
 			}
@@ -533,23 +597,21 @@ func (l *lazyFn) reader(rel string) {
 			if !ok || len(r.Results) == 0 {
 				return state
 			}
-			res := l.resolve(r.Results[0])
-			switch {
-			case core.ObjOf(l.inf, res) == l.src && l.src != nil:
+			h := classify(state, r.Results[0])
+			if id, isId := core.Unparen(r.Results[0]).(*ast.Ident); isId && resVar != nil && core.ObjOf(l.inf, id) == resVar {
+				h = state >> 3
+			}
+			switch h {
+			case hRawOK:
 				rawN++
-				if state&bNotPH == 0 {
-					rawBad = "the raw map value is returned on a path where it can be an *inFlightValue"
-				}
-			case state&bNotFound != 0:
-				// nothing in the map: the result says so
+			case hRawBad:
+				rawN++
+				rawBad = "the raw map value is returned on a path where it can be an *inFlightValue"
+			case hV, hPayload:
 			default:
-				if _, isV := l.vField(res); isV {
-					break
+				if state&bNotFound == 0 {
+					valueBad = fmt.Sprintf("%s is returned, which is neither the entry found in the map nor the value this call computed", core.ExprString(r.Results[0]))
 				}
-				if l.payload(res) != nil && state&bLoadedF != 0 {
-					break
-				}
-				valueBad = fmt.Sprintf("%s is returned, which is neither the entry found in the map nor the value this call computed", core.ExprString(r.Results[0]))
 			}
 			return state
 		},
